@@ -68,7 +68,7 @@ func (s *state) ProcessDescriptor(desc SegmentationDescriptor) ([]SegmentationDe
 	}
 	// check if this is a duplicate - if not, add it to the received list and
 	// drop the old received if we're over the length limit
-	descAdded := false
+	var sameTime *receivedElem
 	pts := desc.SCTE35().PTS()
 	for _, e := range s.received {
 		if e != nil {
@@ -78,8 +78,8 @@ func (s *state) ProcessDescriptor(desc SegmentationDescriptor) ([]SegmentationDe
 						// Duplicate desc found
 						return nil, gots.ErrSCTE35DuplicateDescriptor
 					}
-					e.descs = append(e.descs, desc)
-					descAdded = true
+					// remember desc with this element once it has passed all checks
+					sameTime = e
 				}
 				// check if we have seen a VSS signal with the same signalId and
 				// same eventId before.
@@ -105,7 +105,9 @@ func (s *state) ProcessDescriptor(desc SegmentationDescriptor) ([]SegmentationDe
 			}
 		}
 	}
-	if !descAdded {
+	if sameTime != nil {
+		sameTime.descs = append(sameTime.descs, desc)
+	} else {
 		s.received[s.receivedHead] = &receivedElem{pts: pts, descs: []SegmentationDescriptor{desc}}
 		s.receivedHead = (s.receivedHead + 1) % receivedRingLen
 	}
